@@ -82,6 +82,7 @@ class Lower:
         self.need_defaults = set(getattr(unit, 'DEFAULTS', []))
         self.dflt_names = {}
         self.dflt_text = {}
+        self.local_records = []
 
     # ------------------------------------------------------------------ names
     @staticmethod
@@ -124,6 +125,9 @@ class Lower:
             return self.typemap[t]
         if re.search(r'::\*$', t):
             return 'size_t'          # pointer to data member: an offset
+        m = re.match(r'^(.*?)\s*\(&&?\)\[\d*\]$', t)
+        if m:                        # reference to array: lowered as pointer to the first element
+            return self._ctype(m.group(1), allow_opaque) + ' *'
         m = re.match(r'^(.*?)\s*(\*|&&|&)$', t)
         if m:
             return self._ctype(m.group(1), allow_opaque) + ' *'
@@ -202,7 +206,9 @@ class Lower:
     def e_ExprWithCleanups(self, n):
         return self.E(self.inner(n)[0])
     e_MaterializeTemporaryExpr = e_CXXBindTemporaryExpr = e_ConstantExpr = e_ExprWithCleanups
-    e_SubstNonTypeTemplateParmExpr = e_ExprWithCleanups
+
+    def e_SubstNonTypeTemplateParmExpr(self, n):
+        return self.E(self.inner(n)[-1])         # the replacement expression (the parameter declaration comes first)
 
     def e_ParenExpr(self, n):
         return '(' + self.E(self.inner(n)[0]) + ')'
@@ -331,6 +337,8 @@ class Lower:
                     return self.stubs[key]
                 raise Abort('reference to unknown variable %s in %s' % (nm, self.cur_fn))
             nm = self.rename.get(nm, nm)
+            if re.search(r'\(&&?\)\[\d*\]$', qt.strip()):
+                return nm                      # reference to array, lowered as pointer to the first element
             return '(*%s)' % nm if self.is_ref(qt) else nm
         if k == 'EnumConstantDecl':
             d = self.ast.byid.get(r['id'])
@@ -1209,6 +1217,42 @@ class Lower:
             tail = self.dtors(ind + 1, 1)
             self.scopes.pop()
             return ln + pad + '{\n' + i_s + pad + '    for (; %s; %s)\n' % (c, i) + lc + b + tail + pad + '}\n'
+        if k == 'CXXForRangeStmt' and self.range_is_array(n):
+            # range-for over a C array: lowered to an index loop (an integer loop variable can carry a loop contract, a pointer cannot)
+            raw = n.get('inner', [])
+            _i, rng, beg, end, cnd, inc, lv, body = raw
+            rv = self.inner(rng)[0]
+            m = re.search(r'\[(\d+)\]$', self.qt(rv).strip())
+            count = m.group(1)
+            arr = self.E(self.inner(rv)[0])
+            ordn = self.loop_ord
+            iv = 'vs_i%d' % ordn
+            self.scopes.append([])
+            lc = self.loopc(ind + 1).replace('$I', iv)
+            self.loop_depth.append(len(self.scopes))
+            self.scopes.append([])
+            lvd = self.inner(lv)[0]
+            lct = self.ctype(lvd['type'])
+            if not self.is_ref(self.qt(lvd)):
+                raise Abort('range-for over an array with a by-value loop variable in %s' % self.cur_fn)
+            hoist = self.cur_spec.get('hoist_all')
+            if hoist:
+                for decl_ in ('size_t %s;' % iv, '%s %s;' % (lct, lvd['name'])):
+                    if decl_ not in self.hoisted:
+                        self.hoisted.append(decl_)
+                self.hoisted_names.append((lvd['name'], tuple(self.loop_id_stack)))
+                self.hoisted_names.append((iv, tuple(self.loop_id_stack[:-1])))
+            bs = self.S(body, ind + 2)
+            dt = self.dtors(ind + 2, 1)
+            self.scopes.pop()
+            self.loop_depth.pop()
+            self.loop_id_stack.pop()
+            self.scopes.pop()
+            s = ln + pad + '{\n' + pad + '    %s%s = 0;\n' % ('' if hoist else 'size_t ', iv)
+            s += pad + '    for (; %s < %s; ++%s)\n' % (iv, count, iv) + lc
+            s += pad + '    {\n' + pad + '        VS_REACH(%s);\n' % self.reach_label('loop')
+            s += pad + '        %s%s = &(%s)[%s];\n' % ('' if hoist else lct + ' ', lvd['name'], arr, iv) + bs + dt + pad + '    }\n' + pad + '}\n'
+            return s
         if k == 'CXXForRangeStmt':
             raw = n.get('inner', [])
             _i, rng, beg, end, cnd, inc, lv, body = raw
@@ -1254,6 +1298,13 @@ class Lower:
         if x == '((void)0)':
             return ln + pre
         return ln + pre + pad + x + ';\n'
+
+    def range_is_array(self, n):
+        raw = n.get('inner', [])
+        if len(raw) != 8 or not raw[1]:
+            return False
+        rv = self.inner(raw[1])
+        return bool(rv) and rv[0].get('kind') == 'VarDecl' and bool(re.search(r'\(&&?\)\[\d+\]$', self.qt(rv[0]).strip()))
 
     def ends_in_throw(self, stmts):
         return bool(stmts) and self.find_throw(stmts[-1]) is not None and not self.try_stack
@@ -1376,6 +1427,16 @@ class Lower:
         k = v.get('kind')
         if k in ('TypedefDecl', 'TypeAliasDecl', 'StaticAssertDecl', 'UsingDecl', 'UsingDirectiveDecl'):
             return ''
+        if k == 'CXXRecordDecl' and v.get('completeDefinition'):
+            # a struct declared inside the function: emitted at file scope under a function-qualified name
+            q = self.ast.qname(v)
+            if q not in self.records:
+                self.records[q] = v
+                self.rec_cname[q] = 'struct ' + self.mangle(q)
+                self.local_records.append(q)
+            return ''
+        if k == 'CXXRecordDecl':
+            return ''
         if k != 'VarDecl':
             raise Abort('decl kind %s in %s' % (k, self.cur_fn))
         qt = self.qt(v)
@@ -1389,7 +1450,7 @@ class Lower:
             return self.lambda_decl(v, core, ind)
         hoist = nm in self.cur_spec.get('hoist', []) or (self.cur_spec.get('hoist_all') and bool(self.loop_depth))
         m = re.match(r'^(.*)\[(\d+)\]$', norm_type(qt))
-        if m:
+        if m and '(&' not in qt:
             ct = self.ctype(m.group(1))
             if init is not None and init.get('kind') == 'StringLiteral':
                 return pad + '%s %s[%s] = %s;\n' % (ct, nm, m.group(2), self.E(init))
@@ -1481,6 +1542,20 @@ class Lower:
         spec = self.u_fn_spec(self.cur_q) or {}
         self.cur_spec = spec
         rq = self.qt(op).split('(')[0].strip()
+        if rq == 'auto' and op['type'].get('desugaredQualType'):
+            rq = op['type']['desugaredQualType'].split('(')[0].strip()
+        if rq == 'auto':
+            # deduce from the first return statement
+            def first_ret(x):
+                if x.get('kind') == 'ReturnStmt':
+                    return x
+                for c in self.inner(x):
+                    r = first_ret(c)
+                    if r is not None:
+                        return r
+                return None
+            fr = first_ret(body_of(op))
+            rq = self.qt(self.inner(fr)[0]) if fr is not None and self.inner(fr) else 'void'
         ret = self.ctype(rq)
         self.cur_ret = ret
         self.ret_is_ref = rq.endswith('&')
@@ -1906,7 +1981,7 @@ def emit_c(L, funs, unit, harnesses):
         gen_defaults(L, rq, ddone, text_defaults)
     out.append('/* GENERATED on every run from the clang AST of /repo -- do not edit */')
     out.append(unit.PRELUDE)
-    for q in unit.RECORDS:
+    for q in list(unit.RECORDS) + [q for q in L.local_records if q not in unit.RECORDS]:
         out.append(L.rec_cname[q] + ';')
     # enum constants used
     for eq in getattr(unit, 'ENUMS', []):
@@ -1940,7 +2015,7 @@ def emit_c(L, funs, unit, harnesses):
                     if fr:
                         visit(fr)
         order.append(q)
-    for q in unit.RECORDS:
+    for q in list(unit.RECORDS) + [q for q in L.local_records if q not in unit.RECORDS]:
         visit(q)
     text_records = [L.record(q) for q in order]
     bodies = []
